@@ -15,6 +15,7 @@ From JB Require Import Constants Bytes Utf8 Num Value Codec Decimal JsonText Ord
 From JB Require Import NumProofs OrderProofs CodecProofs RoundtripProofs DispatchProofs MiscProofs TextProofs SerdeProofs
   WalkProofs CompareWalkProofs ComparableWalkProofs RenderWalkProofs SelWalkProofs CastWalkProofs SerdeWalkProofs
   KeysWalkProofs EditWalkProofs EditWalk2Proofs ContainWalkProofs SetWalkProofs.
+From JB Require Import BufSt EditStProofs.
 Open Scope N_scope.
 Set Default Timeout 60.
 Arguments N.land : simpl never. Arguments N.lor : simpl never. Arguments N.eqb : simpl never. Arguments N.ltb : simpl never.
@@ -119,27 +120,27 @@ Section Accessors.
     delete_by_name_w t name buf = res_map (fun x => buf ++ enc x) (delete_by_name_t v name).
   Proof.
     destruct S as [[-> T]|[Ht Hp]]; [apply delete_by_name_w_enc; assumption|].
-    unfold delete_by_name_w, delete_by_name_m, append_enc. rewrite Ht, (doc_of_text t v Ht Hp). cbn [bind].
+    rewrite ?delete_by_name_w_eq. unfold delete_by_name_m, append_enc. rewrite Ht, (doc_of_text t v Ht Hp). cbn [bind].
     apply res_map_bind.
   Qed.
   Theorem delete_by_index_forms i buf :
     delete_by_index_w t i buf = res_map (fun x => buf ++ enc x) (delete_by_index_t v i).
   Proof.
     destruct S as [[-> T]|[Ht Hp]]; [apply delete_by_index_w_enc; assumption|].
-    unfold delete_by_index_w, delete_by_index_m, append_enc. rewrite Ht, (doc_of_text t v Ht Hp). cbn [bind].
+    rewrite ?delete_by_index_w_eq. unfold delete_by_index_m, append_enc. rewrite Ht, (doc_of_text t v Ht Hp). cbn [bind].
     apply res_map_bind.
   Qed.
   Theorem delete_by_keypath_forms ks buf :
     delete_by_keypath_w t ks buf = res_map (fun y => buf ++ enc y) (delete_by_keypath_t v ks).
   Proof.
     destruct S as [[-> T]|[Ht Hp]]; [apply delete_by_keypath_w_enc'; assumption|].
-    unfold delete_by_keypath_w, delete_by_keypath_m, append_enc. rewrite Ht, (doc_of_text t v Ht Hp). cbn [bind].
+    rewrite ?delete_by_keypath_w_eq. unfold delete_by_keypath_m, append_enc. rewrite Ht, (doc_of_text t v Ht Hp). cbn [bind].
     apply res_map_bind.
   Qed.
   Theorem strip_nulls_forms buf : strip_nulls_w t buf = Ok (buf ++ enc (strip_nulls_t v)).
   Proof.
     destruct S as [[-> T]|[Ht Hp]]; [apply strip_nulls_w_enc; assumption|].
-    unfold strip_nulls_w, strip_nulls_m, append_enc. rewrite Ht, (doc_of_text t v Ht Hp). reflexivity.
+    rewrite ?strip_nulls_w_eq. unfold strip_nulls_m, append_enc. rewrite Ht, (doc_of_text t v Ht Hp). reflexivity.
   Qed.
 End Accessors.
 
@@ -153,23 +154,23 @@ Proof. intros W S. rewrite as_jsonb_same. apply as_jsonb_stands; assumption. Qed
 
 Theorem object_delete_forms t v ks buf : wfb v = true -> stands_for t v ->
   object_delete_w t ks buf = res_map (fun y => buf ++ enc y) (object_delete_t v ks).
-Proof. intros W S. unfold object_delete_w. rewrite (as_jsonb_forms t v W S). cbn [bind]. apply object_delete_b_enc. exact W. Qed.
+Proof. intros W S. rewrite ?object_delete_w_eq. rewrite (as_jsonb_forms t v W S). cbn [bind]. apply object_delete_b_enc. exact W. Qed.
 Theorem object_pick_forms t v ks buf : wfb v = true -> stands_for t v ->
   object_pick_w t ks buf = res_map (fun y => buf ++ enc y) (object_pick_t v ks).
-Proof. intros W S. unfold object_pick_w. rewrite (as_jsonb_forms t v W S). cbn [bind]. apply object_pick_b_enc. exact W. Qed.
+Proof. intros W S. rewrite ?object_pick_w_eq. rewrite (as_jsonb_forms t v W S). cbn [bind]. apply object_pick_b_enc. exact W. Qed.
 (* both document arguments independently (all four combinations) *)
 Theorem object_insert_forms t u v x key upd buf : wfb v = true -> wfb x = true -> stands_for t v -> stands_for u x ->
   (forall y, object_insert_t v key x upd = Ok y -> wf_size y = true) ->
   object_insert_w t key u upd buf = res_map (fun y => buf ++ enc y) (object_insert_t v key x upd).
 Proof.
-  intros W Wx S Sx Hres. unfold object_insert_w. rewrite (as_jsonb_forms t v W S), (as_jsonb_forms u x Wx Sx). cbn [bind].
+  intros W Wx S Sx Hres. rewrite ?object_insert_w_eq. rewrite (as_jsonb_forms t v W S), (as_jsonb_forms u x Wx Sx). cbn [bind].
   apply object_insert_b_enc; [exact W|apply wfb_size; exact Wx|exact Hres].
 Qed.
 Theorem array_insert_forms t u v x pos buf : wfb v = true -> wfb x = true -> stands_for t v -> stands_for u x ->
   wf_size (array_insert_t v pos x) = true ->
   array_insert_w t pos u buf = Ok (buf ++ enc (array_insert_t v pos x)).
 Proof.
-  intros W Wx S Sx Hres. unfold array_insert_w.
+  intros W Wx S Sx Hres. rewrite ?array_insert_w_eq.
   destruct S as [[-> T]|[Ht Hp]]; destruct Sx as [[-> Tx]|[Hu Hq]];
     rewrite ?(is_jsonb_enc v W T), ?(is_jsonb_enc x Wx Tx), ?Ht, ?Hu, ?Hp, ?Hq; cbn [bind];
     rewrite ?(to_vec_text v W), ?(to_vec_text x Wx); apply array_insert_b_enc; assumption.
@@ -532,7 +533,7 @@ Proof.
   destruct (from_slice_forms t a Wa Sa Ht) as (a' & Fa & Na & Wa').
   destruct (from_slice_forms u b Wb Sb Hu) as (b' & Fb & Nb & Wb').
   destruct (negb (is_jsonb t) || negb (is_jsonb u)) eqn:J.
-  - unfold concat_w, concat_m, append_enc. rewrite J, Fa, Fb. cbn [bind].
+  - rewrite ?concat_w_eq. unfold concat_m, append_enc. rewrite J, Fa, Fb. cbn [bind].
     rewrite (concat_same_normal a a' b b' Na Nb). reflexivity.
   - apply orb_false_iff in J. destruct J as [Jt Ju]. apply negb_false_iff in Jt, Ju.
     destruct Sa as [[-> Ta]|[Ha _]]; [|congruence]. destruct Sb as [[-> Tb]|[Hb _]]; [|congruence].
